@@ -76,6 +76,7 @@ def run(ctx, rep):
     rounded(prog, rep)
     rows_without_hit(prog, rep)
     points_end(prog, rep)
+    rounded_wrapper(prog, rep)
     # triangle: canonical edges in contains() and in the scanline intersection (shared with C19)
     c19.triangle_edges(prog, rep)
     c19.edge_rasteriser(prog, rep)
@@ -568,6 +569,31 @@ def rows_without_hit(prog, rep):
         except Unsupported as e:
             bad.append("cannot summarise: %s" % e)
         rep.check(not bad and n >= 1, "R05.4", shape + ":empty-row", "a row without an accepted column must not end points(): %s" % "; ".join(sorted(set(bad))[:2]), at=nx.span, fn=nx.path)
+
+
+def rounded_wrapper(prog, rep):
+    """R05.7 the public `RoundedRectangle::contains` is `RoundedRectangleContains::new(self).contains(point)` on every
+    path: `points()` and the styled renderers work on that helper (R05.2, R05.5), so an answer the wrapper gives by itself
+    (a fast path for "rows without corners") is a second membership predicate."""
+    fs = [f for f in prog.fns.values() if f.name == "contains" and f.impl and (prog.impls[f.impl].get("trait") or "").endswith("primitives::ContainsPoint")
+          and str(prog.impls[f.impl]["self_ty"].get("adt", "")).endswith("rounded_rectangle::RoundedRectangle")]
+    if len(fs) != 1:
+        rep.fail("R05.7", "rounded:contains-wrapper", "anchor lost (%d)" % len(fs), status="undecided")
+        return
+    f = fs[0]
+    try:
+        summs = Paths(prog, inline=lambda g: prog.is_new(g)).of(f)
+    except Unsupported as e:
+        rep.fail("R05.7", "rounded:contains-wrapper", "cannot summarise: %s" % e, status="undecided", at=f.span, fn=f.path)
+        return
+    bad = []
+    for sm in summs:
+        r = strip_refs(sm.ret)
+        ok = r[0] == "call" and r[1].endswith("RoundedRectangleContains::contains") and len(r[3]) == 2 and strip_refs(r[3][1]) == P(2, "point") \
+            and strip_refs(r[3][0])[0] == "call" and strip_refs(r[3][0])[1].endswith("RoundedRectangleContains::new") and strip_refs(strip_refs(r[3][0])[3][0]) == P(1, "self")
+        if not ok:
+            bad.append("a path answers %s%s" % (show(r, maxd=3)[:100], (" when " + "; ".join(show_fact(x)[:60] for x in sm.facts[:3])) if sm.facts else ""))
+    rep.check(not bad and len(summs) >= 1, "R05.7", "rounded:contains-wrapper", "RoundedRectangle::contains must be RoundedRectangleContains::new(self).contains(point) on every path: %s" % "; ".join(bad[:2]), at=f.span, fn=f.path)
 
 
 def points_end(prog, rep):
